@@ -1,1 +1,917 @@
-fn main() {}
+//! dsumon - runtime monitor for the disjoint-set union (C05).
+//!   --mode random      random histories (un/par/check/size/reset/clone) on small n, full verification after every op
+//!   --mode exhaustive  every op sequence up to a length on n <= 5
+//!   --mode adversarial chains, binomial worst case, stars, caterpillars, random, with staged depth checkpoints
+//! Oracles: naive component labelling (relabel on union); representative stability between unions; through the
+//! read-only hook (verif_parents / verif_sizes): acyclic forest, every element reaches a root of its own component,
+//! depth(v) <= floor(log2(|component(v)|)), size array at roots = cardinality.
+//! Replay: --mode random --case <seed> | --mode exhaustive --case <n>:<index> | --mode adversarial --case <order>:<n>
+
+use common::{catch, lib, mix, Engine, Json, Report, Rng, WorkQueue};
+use rlib_dsu::DSU;
+
+struct Model {
+    label: Vec<usize>,
+    members: Vec<Vec<usize>>, // by label
+    /// representative recorded since the last union / reset, per label
+    rep: Vec<Option<usize>>,
+}
+
+impl Model {
+    fn new(n: usize) -> Self {
+        Model { label: (0..n).collect(), members: (0..n).map(|i| vec![i]).collect(), rep: vec![None; n] }
+    }
+    fn n(&self) -> usize {
+        self.label.len()
+    }
+    fn union(&mut self, u: usize, v: usize) -> bool {
+        let (a, b) = (self.label[u], self.label[v]);
+        // any union call ends the stability window of every recorded representative (least demanding reading)
+        for r in self.rep.iter_mut() {
+            *r = None;
+        }
+        if a == b {
+            return false;
+        }
+        let moved = std::mem::take(&mut self.members[b]);
+        for &x in &moved {
+            self.label[x] = a;
+        }
+        self.members[a].extend(moved);
+        true
+    }
+    fn size(&self, v: usize) -> usize {
+        self.members[self.label[v]].len()
+    }
+    fn same(&self, u: usize, v: usize) -> bool {
+        self.label[u] == self.label[v]
+    }
+}
+
+struct Pair {
+    dsu: DSU,
+    model: Model,
+}
+
+struct Cx<'a> {
+    rep: &'a mut Report,
+    replay: Vec<String>,
+    log: Vec<String>,
+    mode: &'static str,
+}
+
+impl Cx<'_> {
+    fn violation(&mut self, kind: &str, d: Json) {
+        let tail: Vec<String> = if self.log.len() > 60 { self.log[self.log.len() - 60..].to_vec() } else { self.log.clone() };
+        let d = d.set("history", Json::from(tail));
+        self.rep.violation(format!("{}:{}", self.mode, kind), d, self.replay.clone());
+    }
+    fn note(&mut self, s: String) {
+        if self.log.len() < 500 {
+            self.log.push(s);
+        }
+    }
+}
+
+fn floor_log2(x: usize) -> usize {
+    (usize::BITS - 1 - x.leading_zeros()) as usize
+}
+
+/// Forest invariant through the hook. O(n). Returns max depth seen.
+fn check_forest(p: &Pair, cx: &mut Cx, why: &str) -> usize {
+    let parents = p.dsu.verif_parents();
+    let sizes = p.dsu.verif_sizes();
+    let n = p.model.n();
+    cx.rep.inc("forest_checks");
+    if parents.len() != n || sizes.len() != n {
+        cx.violation(
+            "forest_len",
+            Json::obj().set("what", "parent/size arrays do not have one entry per element").set("parents", parents.len()).set("sizes", sizes.len()).set("n", n).set("at", why),
+        );
+        return 0;
+    }
+    // depth with memo, iterative; cycle detection by colouring
+    let mut depth: Vec<i64> = vec![-1; n];
+    let mut maxd = 0usize;
+    let mut stack: Vec<usize> = Vec::new();
+    let mut state: Vec<u8> = vec![0; n]; // 0 new, 1 on stack, 2 done
+    for s in 0..n {
+        if state[s] == 2 {
+            continue;
+        }
+        let mut v = s;
+        loop {
+            if parents[v] >= n {
+                cx.violation("forest_parent_out_of_range", Json::obj().set("v", v).set("parent", parents[v]).set("n", n).set("at", why));
+                return 0;
+            }
+            if state[v] == 2 {
+                break;
+            }
+            if state[v] == 1 {
+                cx.violation(
+                    "forest_cycle",
+                    Json::obj().set("what", "the parent forest contains a cycle (a lookup would not terminate)").set("v", v).set("at", why),
+                );
+                return 0;
+            }
+            state[v] = 1;
+            stack.push(v);
+            if parents[v] == v {
+                depth[v] = 0;
+                state[v] = 2;
+                stack.pop();
+                break;
+            }
+            v = parents[v];
+        }
+        while let Some(x) = stack.pop() {
+            depth[x] = depth[parents[x]] + 1;
+            state[x] = 2;
+        }
+    }
+    // root of every element must lie in its own component; depth bound; sizes at roots
+    let mut root_of: Vec<usize> = vec![usize::MAX; n];
+    // process in order of increasing depth is unnecessary: resolve by walking (depth is small when the bound holds);
+    // to stay O(n) even on degenerate forests use memo through a second pass over a depth-sorted order
+    let mut order: Vec<usize> = (0..n).collect();
+    order.sort_by_key(|&v| depth[v]);
+    for &v in &order {
+        root_of[v] = if parents[v] == v { v } else { root_of[parents[v]] };
+    }
+    let mut reported = 0;
+    for v in 0..n {
+        let r = root_of[v];
+        let comp = p.model.size(v);
+        if !p.model.same(v, r) && reported < 2 {
+            reported += 1;
+            cx.violation(
+                "forest_root_outside_component",
+                Json::obj().set("what", "following parents from v ends at a root outside v's component").set("v", v).set("root", r).set("at", why),
+            );
+        }
+        let d = depth[v] as usize;
+        if d > maxd {
+            maxd = d;
+        }
+        if d > floor_log2(comp) && reported < 2 {
+            reported += 1;
+            cx.violation(
+                "depth",
+                Json::obj()
+                    .set("what", "an element is deeper in the parent forest than floor(log2(component size))")
+                    .set("v", v)
+                    .set("depth", d)
+                    .set("component_size", comp)
+                    .set("bound", floor_log2(comp))
+                    .set("n", n)
+                    .set("at", why),
+            );
+        }
+        if parents[v] == v && sizes[v] != comp && reported < 2 {
+            reported += 1;
+            cx.violation(
+                "forest_size_at_root",
+                Json::obj().set("what", "size stored at a root differs from the component's cardinality").set("root", v).set("stored", sizes[v]).set("want", comp).set("at", why),
+            );
+        }
+    }
+    cx.rep.max("max_forest_depth_seen", maxd as i64);
+    maxd
+}
+
+/// par(v) for one element: member of the component, stable since the last union
+fn check_par(p: &mut Pair, v: usize, cx: &mut Cx) {
+    let got = lib!(p.dsu.par(v));
+    cx.rep.inc("par_checked");
+    let n = p.model.n();
+    if got >= n || !p.model.same(got, v) {
+        cx.violation(
+            "par_not_member",
+            Json::obj().set("what", "par(v) is not a member of v's component").set("v", v).set("got", got),
+        );
+        return;
+    }
+    let l = p.model.label[v];
+    match p.model.rep[l] {
+        None => p.model.rep[l] = Some(got),
+        Some(r) => {
+            if r != got {
+                cx.violation(
+                    "par_unstable",
+                    Json::obj()
+                        .set("what", "the representative of a component differs between two lookups with no union in between (or between two of its members)")
+                        .set("v", v)
+                        .set("got", got)
+                        .set("recorded", r),
+                );
+            }
+        }
+    }
+}
+
+fn full_verify(p: &mut Pair, cx: &mut Cx, why: &str) {
+    let n = p.model.n();
+    check_forest(p, cx, why);
+    // all members agree on the representative; size and check answers
+    for v in 0..n {
+        check_par(p, v, cx);
+        let s = lib!(p.dsu.size(v));
+        if s != p.model.size(v) {
+            cx.violation("size", Json::obj().set("v", v).set("got", s).set("want", p.model.size(v)).set("at", why));
+        }
+    }
+    if n <= 16 {
+        for u in 0..n {
+            for v in 0..n {
+                let c = lib!(p.dsu.check(u, v));
+                cx.rep.inc("check_checked");
+                if c != p.model.same(u, v) {
+                    cx.violation("check", Json::obj().set("u", u).set("v", v).set("got", c).set("want", p.model.same(u, v)).set("at", why));
+                }
+            }
+        }
+    }
+    check_forest(p, cx, "after lookups (path compression)");
+}
+
+fn do_un(p: &mut Pair, u: usize, v: usize, cx: &mut Cx) {
+    cx.note(format!("un({}, {})", u, v));
+    let want = p.model.union(u, v);
+    let got = lib!(p.dsu.un(u, v));
+    cx.rep.inc("un_checked");
+    if want {
+        cx.rep.inc("un_joined");
+    }
+    if got != want {
+        cx.violation(
+            "un_result",
+            Json::obj().set("what", "un returned true although nothing was joined, or false although two components were joined").set("u", u).set("v", v).set("got", got).set("want", want),
+        );
+    }
+}
+
+fn run_random_case(case_seed: u64, rep: &mut Report, verbose: bool) {
+    let mut rng = Rng::new(case_seed);
+    let replay = vec!["--mode".into(), "random".into(), "--case".into(), format!("{}", case_seed)];
+    let mut cx = Cx { rep, replay, log: Vec::new(), mode: "random" };
+    cx.rep.inc("evaluations");
+    let r = catch(|| {
+        let n0 = match rng.below(4) {
+            0 => rng.range_usize(1, 6),
+            1 => rng.range_usize(6, 17),
+            _ => rng.range_usize(2, 64),
+        };
+        cx.note(format!("new({})", n0));
+        let mut pool: Vec<Pair> = vec![Pair { dsu: lib!(DSU::new(n0)), model: Model::new(n0) }];
+        let nops = rng.range_usize(1, 80);
+        let mut joined = 0;
+        let mut lookups_between = 0;
+        for _ in 0..nops {
+            let k = rng.usize_below(pool.len());
+            let n = pool[k].model.n();
+            if n == 0 {
+                // only reset is possible on an empty structure
+                let n2 = rng.range_usize(1, 20);
+                cx.note(format!("[{}] reset({})", k, n2));
+                lib!(pool[k].dsu.reset(n2));
+                pool[k].model = Model::new(n2);
+                continue;
+            }
+            match rng.weighted(&[40, 14, 12, 10, 3, 3, 6]) {
+                0 => {
+                    // unions biased to join different components through non-root, deep elements
+                    let u = rng.usize_below(n);
+                    let v = rng.usize_below(n);
+                    let before = pool[k].model.same(u, v);
+                    cx.note(format!("[{}]", k));
+                    do_un(&mut pool[k], u, v, &mut cx);
+                    if !before {
+                        joined += 1;
+                    }
+                }
+                1 => {
+                    let v = rng.usize_below(n);
+                    cx.note(format!("[{}] par({})", k, v));
+                    check_par(&mut pool[k], v, &mut cx);
+                    lookups_between += 1;
+                }
+                2 => {
+                    let (u, v) = (rng.usize_below(n), rng.usize_below(n));
+                    cx.note(format!("[{}] check({}, {})", k, u, v));
+                    let got = lib!(pool[k].dsu.check(u, v));
+                    cx.rep.inc("check_checked");
+                    if got != pool[k].model.same(u, v) {
+                        let want = pool[k].model.same(u, v);
+                        cx.violation("check", Json::obj().set("u", u).set("v", v).set("got", got).set("want", want));
+                    }
+                }
+                3 => {
+                    let v = rng.usize_below(n);
+                    cx.note(format!("[{}] size({})", k, v));
+                    let got = lib!(pool[k].dsu.size(v));
+                    cx.rep.inc("size_checked");
+                    if got != pool[k].model.size(v) {
+                        let want = pool[k].model.size(v);
+                        cx.violation("size", Json::obj().set("v", v).set("got", got).set("want", want));
+                    }
+                }
+                4 => {
+                    // reset: growing, shrinking, same size, to zero
+                    let n2 = match rng.below(5) {
+                        0 => n,
+                        1 => rng.range_usize(0, n),
+                        2 => 0,
+                        _ => rng.range_usize(n, n + 20),
+                    };
+                    cx.note(format!("[{}] reset({})", k, n2));
+                    cx.rep.inc("resets");
+                    cx.rep.see_str("reset_kinds", if n2 > n { "grow" } else if n2 < n { "shrink" } else { "same" });
+                    lib!(pool[k].dsu.reset(n2));
+                    pool[k].model = Model::new(n2);
+                }
+                5 => {
+                    if pool.len() < 3 {
+                        cx.note(format!("[{}] clone -> [{}]", k, pool.len()));
+                        cx.rep.inc("clones");
+                        let d = lib!(pool[k].dsu.clone());
+                        let m = Model { label: pool[k].model.label.clone(), members: pool[k].model.members.clone(), rep: pool[k].model.rep.clone() };
+                        pool.push(Pair { dsu: d, model: m });
+                    }
+                }
+                _ => {
+                    cx.note(format!("[{}] verify-all", k));
+                    full_verify(&mut pool[k], &mut cx, "mid-history");
+                }
+            }
+            check_forest(&pool[k], &mut cx, "after op");
+        }
+        for k in 0..pool.len() {
+            if pool[k].model.n() > 0 {
+                full_verify(&mut pool[k], &mut cx, "end of history");
+            }
+        }
+        if joined >= 2 && lookups_between >= 1 {
+            cx.rep.see("nontrivial", case_seed);
+        }
+        if cx.rep.wants_sample() && nops <= 10 {
+            let s = Json::obj().set("history", Json::from(cx.log.clone()));
+            cx.rep.sample(s);
+        }
+        if verbose {
+            for l in &cx.log {
+                eprintln!("  {}", l);
+            }
+        }
+    });
+    if let Err(p) = r {
+        if p.in_lib {
+            cx.violation("panic", Json::obj().set("what", "the library panicked on a lawful operation").set("panic", p.msg.as_str()).set("at", format!("{}:{}", p.file, p.line)));
+        } else {
+            cx.rep.inconclusive(format!("harness panic at {}:{}: {}", p.file, p.line, p.msg));
+        }
+    }
+}
+
+// ------------------------------------------------------------------------------------------------
+
+#[derive(Clone, Debug)]
+enum XOp {
+    Un(usize, usize),
+    Par(usize),
+    Size(usize),
+}
+
+fn xops(n: usize) -> Vec<XOp> {
+    let mut v = Vec::new();
+    for a in 0..n {
+        for b in 0..n {
+            if a != b {
+                v.push(XOp::Un(a, b));
+            }
+        }
+    }
+    for a in 0..n {
+        v.push(XOp::Par(a));
+    }
+    v.push(XOp::Un(0, 0));
+    v.push(XOp::Size(n - 1));
+    v
+}
+
+fn decode_seq(mut idx: u64, nops: usize, maxlen: usize) -> Vec<usize> {
+    let mut p = 1u64;
+    for len in 0..=maxlen {
+        if idx < p {
+            let mut v = Vec::with_capacity(len);
+            for _ in 0..len {
+                v.push((idx % nops as u64) as usize);
+                idx /= nops as u64;
+            }
+            return v;
+        }
+        idx -= p;
+        p *= nops as u64;
+    }
+    unreachable!()
+}
+
+fn total_seqs(nops: usize, maxlen: usize) -> u64 {
+    let mut t = 0u64;
+    let mut p = 1u64;
+    for _ in 0..=maxlen {
+        t += p;
+        p *= nops as u64;
+    }
+    t
+}
+
+fn xlen(n: usize, thorough: bool) -> usize {
+    match (n, thorough) {
+        (1, _) => 4,
+        (2, _) => 7,
+        (3, false) => 5,
+        (3, true) => 6,
+        (4, false) => 4,
+        (4, true) => 5,
+        (_, false) => 3,
+        (_, true) => 4,
+    }
+}
+
+fn run_exhaustive_case(n: usize, idx: u64, ops: &[XOp], maxlen: usize, rep: &mut Report, verbose: bool) {
+    let seq = decode_seq(idx, ops.len(), maxlen);
+    let replay = vec!["--mode".into(), "exhaustive".into(), "--case".into(), format!("{}:{}", n, idx)];
+    let mut cx = Cx { rep, replay, log: vec![format!("new({})", n)], mode: "exhaustive" };
+    cx.rep.inc("evaluations");
+    let r = catch(|| {
+        let mut p = Pair { dsu: lib!(DSU::new(n)), model: Model::new(n) };
+        let mut joins = 0;
+        for &k in &seq {
+            match ops[k] {
+                XOp::Un(a, b) => {
+                    let before = p.model.same(a, b);
+                    do_un(&mut p, a, b, &mut cx);
+                    if !before {
+                        joins += 1;
+                    }
+                }
+                XOp::Par(a) => {
+                    cx.note(format!("par({})", a));
+                    check_par(&mut p, a, &mut cx);
+                }
+                XOp::Size(a) => {
+                    cx.note(format!("size({})", a));
+                    let got = lib!(p.dsu.size(a));
+                    if got != p.model.size(a) {
+                        let want = p.model.size(a);
+                        cx.violation("size", Json::obj().set("v", a).set("got", got).set("want", want));
+                    }
+                }
+            }
+            check_forest(&p, &mut cx, "after op");
+        }
+        full_verify(&mut p, &mut cx, "end of history");
+        if joins >= 2 {
+            cx.rep.see("nontrivial", mix(&[n as u64, idx]));
+        }
+        if cx.rep.wants_sample() && seq.len() == maxlen {
+            let s = Json::obj().set("n", n).set("enumerated_history", Json::from(cx.log.clone()));
+            cx.rep.sample(s);
+        }
+        if verbose {
+            for l in &cx.log {
+                eprintln!("  {}", l);
+            }
+        }
+    });
+    if let Err(p) = r {
+        if p.in_lib {
+            cx.violation("panic", Json::obj().set("panic", p.msg.as_str()).set("at", format!("{}:{}", p.file, p.line)));
+        } else {
+            cx.rep.inconclusive(format!("harness panic at {}:{}: {}", p.file, p.line, p.msg));
+        }
+    }
+}
+
+// ------------------------------------------------------------------------------------------------
+// adversarial orders on large n with staged checkpoints. The model here is an independent union-find without
+// compression or sizes (cheap) plus explicit member counts.
+
+struct BigModel {
+    up: Vec<u32>,
+    cnt: Vec<u32>,
+}
+impl BigModel {
+    fn new(n: usize) -> Self {
+        BigModel { up: (0..n as u32).collect(), cnt: vec![1; n] }
+    }
+    fn find(&self, mut v: usize) -> usize {
+        while self.up[v] as usize != v {
+            v = self.up[v] as usize;
+        }
+        v
+    }
+    /// union by count so that find stays logarithmic (independent code, no compression)
+    fn union(&mut self, a: usize, b: usize) -> bool {
+        let (mut a, mut b) = (self.find(a), self.find(b));
+        if a == b {
+            return false;
+        }
+        if self.cnt[a] < self.cnt[b] {
+            std::mem::swap(&mut a, &mut b);
+        }
+        self.up[b] = a as u32;
+        self.cnt[a] += self.cnt[b];
+        true
+    }
+}
+
+const ORDERS: &[&str] = &[
+    "chain_fwd",
+    "chain_rev_args",
+    "chain_backwards",
+    "binomial_roots",
+    "binomial_deepest",
+    "star_into_zero",
+    "star_from_zero",
+    "caterpillar",
+    "random_pairs",
+    "random_with_lookups",
+    "pairs_then_chain",
+];
+
+/// depth/size invariant through the hook against the big model, O(n alpha)
+fn big_checkpoint(dsu: &DSU, m: &BigModel, cx: &mut Cx, why: &str) -> bool {
+    let parents = dsu.verif_parents();
+    let sizes = dsu.verif_sizes();
+    let n = m.up.len();
+    cx.rep.inc("checkpoints");
+    cx.rep.count("elements_walked", n as u64);
+    if parents.len() != n {
+        cx.violation("forest_len", Json::obj().set("parents", parents.len()).set("n", n).set("at", why));
+        return false;
+    }
+    // depth by walking with a step cap: a walk longer than 64 steps already violates the bound for n < 2^64
+    let mut maxd = 0usize;
+    let mut bad = 0;
+    for v in 0..n {
+        let mut x = v;
+        let mut d = 0usize;
+        while parents[x] != x {
+            if parents[x] >= n {
+                cx.violation("forest_parent_out_of_range", Json::obj().set("v", x).set("parent", parents[x]).set("at", why));
+                return false;
+            }
+            x = parents[x];
+            d += 1;
+            if d > 70 {
+                break;
+            }
+        }
+        let root_m = m.find(v);
+        let comp = m.cnt[root_m] as usize;
+        if d > maxd {
+            maxd = d;
+        }
+        if d > floor_log2(comp) {
+            bad += 1;
+            if bad <= 1 {
+                cx.violation(
+                    "depth",
+                    Json::obj()
+                        .set("what", "an element is deeper in the parent forest than floor(log2(component size))")
+                        .set("v", v)
+                        .set("depth_at_least", d)
+                        .set("component_size", comp)
+                        .set("bound", floor_log2(comp))
+                        .set("n", n)
+                        .set("at", why),
+                );
+            }
+            continue;
+        }
+        if m.find(x) != root_m {
+            bad += 1;
+            if bad <= 1 {
+                cx.violation("forest_root_outside_component", Json::obj().set("v", v).set("root", x).set("at", why));
+            }
+        } else if sizes[x] != comp {
+            bad += 1;
+            if bad <= 1 {
+                cx.violation("forest_size_at_root", Json::obj().set("root", x).set("stored", sizes[x]).set("want", comp).set("at", why));
+            }
+        }
+    }
+    cx.rep.max("max_forest_depth_seen", maxd as i64);
+    cx.rep.max("max_n_at_checkpoint", n as i64);
+    bad == 0
+}
+
+fn run_adversarial(order: &str, n: usize, seed: u64, rep: &mut Report) {
+    let replay = vec!["--mode".into(), "adversarial".into(), "--case".into(), format!("{}:{}", order, n)];
+    let mut cx = Cx { rep, replay, log: vec![format!("order {} n {}", order, n)], mode: "adversarial" };
+    cx.rep.inc("evaluations");
+    cx.rep.see_str("nontrivial", &format!("{}:{}", order, n));
+    let mut rng = Rng::new(seed);
+    let r = catch(|| {
+        let mut dsu = lib!(DSU::new(n));
+        let mut m = BigModel::new(n);
+        let mut unions = 0usize;
+        let mut next_cp = 64usize;
+        let mut ok = true;
+        // every union goes through here: result check + staged checkpoint by number of successful unions
+        macro_rules! un {
+            ($u:expr, $v:expr) => {{
+                let (u, v) = ($u, $v);
+                let want = m.union(u, v);
+                let got = lib!(dsu.un(u, v));
+                cx.rep.inc("un_checked");
+                if got != want {
+                    cx.violation("un_result", Json::obj().set("u", u).set("v", v).set("got", got).set("want", want));
+                    ok = false;
+                }
+                if want {
+                    unions += 1;
+                    if unions >= next_cp {
+                        if !big_checkpoint(&dsu, &m, &mut cx, &format!("staged after {} unions", unions)) {
+                            ok = false;
+                        }
+                        next_cp *= 4;
+                    }
+                }
+                if !ok {
+                    return;
+                }
+            }};
+        }
+        match order {
+            "chain_fwd" => {
+                for i in 0..n - 1 {
+                    un!(i, i + 1);
+                }
+            }
+            "chain_rev_args" => {
+                for i in 0..n - 1 {
+                    un!(i + 1, i);
+                }
+            }
+            "chain_backwards" => {
+                for i in (0..n - 1).rev() {
+                    un!(i, i + 1);
+                }
+            }
+            "binomial_roots" | "binomial_deepest" => {
+                // union equal-sized blocks; "roots": through the blocks' current roots (no compression at all, the
+                // forest reaches depth log2(size) exactly); "deepest": through the deepest element of each block
+                let mut width = 1;
+                while width < n {
+                    let mut b = 0;
+                    while b + width < n {
+                        let (u, v) = if order == "binomial_roots" {
+                            let p = dsu.verif_parents();
+                            let mut x = b;
+                            while p[x] != x {
+                                x = p[x];
+                            }
+                            let mut y = b + width;
+                            while p[y] != y {
+                                y = p[y];
+                            }
+                            (x, y)
+                        } else {
+                            // deepest element of each block by walking the hook's parent array
+                            let p = dsu.verif_parents();
+                            let deepest = |lo: usize, hi: usize| {
+                                let mut best = (0usize, lo);
+                                for s in lo..hi.min(n) {
+                                    let mut x = s;
+                                    let mut d = 0;
+                                    while p[x] != x {
+                                        x = p[x];
+                                        d += 1;
+                                    }
+                                    if d > best.0 {
+                                        best = (d, s);
+                                    }
+                                }
+                                best.1
+                            };
+                            if width <= 256 {
+                                (deepest(b, b + width), deepest(b + width, b + 2 * width))
+                            } else {
+                                (b + width - 1, b + width)
+                            }
+                        };
+                        if (b / width) % 4 == 0 {
+                            un!(u, v);
+                        } else {
+                            un!(v, u);
+                        }
+                        b += 2 * width;
+                    }
+                    width *= 2;
+                }
+            }
+            "star_into_zero" => {
+                for i in 1..n {
+                    un!(i, 0);
+                }
+            }
+            "star_from_zero" => {
+                for i in 1..n {
+                    un!(0, i);
+                }
+            }
+            "caterpillar" => {
+                // pairs (2i, 2i+1) first, then chain the pairs through their second elements
+                for i in 0..n / 2 {
+                    un!(2 * i, 2 * i + 1);
+                }
+                for i in 0..n / 2 - 1 {
+                    un!(2 * i + 1, 2 * i + 3);
+                }
+            }
+            "random_pairs" => {
+                for _ in 0..2 * n {
+                    un!(rng.usize_below(n), rng.usize_below(n));
+                }
+            }
+            "random_with_lookups" => {
+                for k in 0..2 * n {
+                    un!(rng.usize_below(n), rng.usize_below(n));
+                    if k % 3 == 0 {
+                        let v = rng.usize_below(n);
+                        let got = lib!(dsu.par(v));
+                        cx.rep.inc("par_checked");
+                        if m.find(got) != m.find(v) {
+                            cx.violation("par_not_member", Json::obj().set("v", v).set("got", got));
+                            return;
+                        }
+                        let u = rng.usize_below(n);
+                        let c = lib!(dsu.check(u, v));
+                        if c != (m.find(u) == m.find(v)) {
+                            cx.violation("check", Json::obj().set("u", u).set("v", v).set("got", c));
+                            return;
+                        }
+                        let s = lib!(dsu.size(v));
+                        if s != m.cnt[m.find(v)] as usize {
+                            cx.violation("size", Json::obj().set("v", v).set("got", s).set("want", m.cnt[m.find(v)]));
+                            return;
+                        }
+                    }
+                }
+            }
+            "pairs_then_chain" => {
+                let mut width = 1;
+                // build blocks of 8 as binomial trees, then chain the blocks smallest-into-largest
+                while width < 8 {
+                    let mut b = 0;
+                    while b + width < n {
+                        un!(b, b + width);
+                        b += 2 * width;
+                    }
+                    width *= 2;
+                }
+                let mut b = 8;
+                while b < n {
+                    un!(b, b - 8);
+                    b += 8;
+                }
+            }
+            _ => panic!("unknown order {}", order),
+        }
+        if !big_checkpoint(&dsu, &m, &mut cx, "final (before lookups)") {
+            return;
+        }
+        // lookups on every element (path compression), then the invariant again; representative identical per component
+        let mut rep_of = vec![usize::MAX; n];
+        for v in 0..n {
+            let r = lib!(dsu.par(v));
+            let root_m = m.find(v);
+            if m.find(r) != root_m {
+                cx.violation("par_not_member", Json::obj().set("v", v).set("got", r));
+                return;
+            }
+            if rep_of[root_m] == usize::MAX {
+                rep_of[root_m] = r;
+            } else if rep_of[root_m] != r {
+                cx.violation("par_unstable", Json::obj().set("v", v).set("got", r).set("recorded", rep_of[root_m]));
+                return;
+            }
+        }
+        cx.rep.count("par_checked", n as u64);
+        big_checkpoint(&dsu, &m, &mut cx, "final (after lookups on every element)");
+        let comps = (0..n).filter(|&v| m.find(v) == v).count();
+        let maxd = cx.rep.maxima.get("max_forest_depth_seen").cloned().unwrap_or(0);
+        cx.rep.sample(Json::obj().set("order", order).set("n", n).set("successful_unions", unions).set("components_left", comps).set("max_forest_depth_seen_so_far", maxd));
+    });
+    if let Err(p) = r {
+        if p.in_lib {
+            cx.violation("panic", Json::obj().set("panic", p.msg.as_str()).set("at", format!("{}:{}", p.file, p.line)));
+        } else {
+            cx.rep.inconclusive(format!("harness panic at {}:{}: {}", p.file, p.line, p.msg));
+        }
+    }
+}
+
+fn main() {
+    let eng = Engine::start("dsumon");
+    let a = &eng.args;
+    let mode = a.str("mode", "random");
+    let thorough = a.thorough();
+    let seed = a.seed();
+    let mut report = Report::new();
+    report.extra("mode", mode.as_str());
+    match mode.as_str() {
+        "random" => {
+            if let Some(c) = a.opt("case") {
+                let mut rep = Report::new();
+                run_random_case(c.parse().unwrap(), &mut rep, true);
+                report.merge(rep);
+                eng.finish(report);
+            }
+            let total = a.u64("cases", if thorough { 6_000_000 } else { 300_000 });
+            let q = WorkQueue::new(total);
+            let rep = common::run_sharded(a.threads(), |_s, rep| {
+                rep.sample_cap = 1;
+                while let Some((lo, hi)) = q.take_block(64) {
+                    for i in lo..hi {
+                        run_random_case(mix(&[seed, 0xC05, i]), rep, false);
+                    }
+                }
+            });
+            report.merge(rep);
+            report.extra("exhaustive", false);
+        }
+        "exhaustive" => {
+            if let Some(c) = a.opt("case") {
+                let (n, idx) = c.split_once(':').unwrap();
+                let (n, idx): (usize, u64) = (n.parse().unwrap(), idx.parse().unwrap());
+                let ops = xops(n);
+                let mut maxlen = xlen(n, thorough);
+                if idx >= total_seqs(ops.len(), maxlen) {
+                    maxlen = xlen(n, true);
+                }
+                let mut rep = Report::new();
+                run_exhaustive_case(n, idx, &ops, maxlen, &mut rep, true);
+                report.merge(rep);
+                eng.finish(report);
+            }
+            let mut scopes = Vec::new();
+            for n in 1..=5usize {
+                let ops = xops(n);
+                let maxlen = xlen(n, thorough);
+                let total = total_seqs(ops.len(), maxlen);
+                scopes.push(Json::obj().set("n", n).set("op_alphabet", ops.len()).set("max_len", maxlen).set("histories", total));
+                let q = WorkQueue::new(total);
+                let ops = &ops;
+                let rep = common::run_sharded(a.threads(), |_s, rep| {
+                    rep.sample_cap = 1;
+                    while let Some((lo, hi)) = q.take_block(512) {
+                        for i in lo..hi {
+                            run_exhaustive_case(n, i, ops, maxlen, rep, false);
+                        }
+                    }
+                });
+                report.merge(rep);
+            }
+            report.extra("exhaustive", true);
+            report.extra("scopes", Json::Arr(scopes));
+        }
+        "adversarial" => {
+            if let Some(c) = a.opt("case") {
+                let (o, n) = c.rsplit_once(':').unwrap();
+                let n: usize = n.parse().unwrap();
+                let o = o.to_string();
+                let rep = common::run_big_stack(move || {
+                    let mut rep = Report::new();
+                    rep.sample_cap = 64;
+                    run_adversarial(&o, n, mix(&[seed, common::hash_str(&o)]), &mut rep);
+                    rep
+                });
+                report.merge(rep);
+                eng.finish(report);
+            }
+            let nmax = a.u64("n", if thorough { 1_000_000 } else { 1 << 17 }) as usize;
+            let sizes: Vec<usize> = vec![2, 3, 5, 8, 17, 64, 100, 1000, 4097, nmax / 8 + 1, nmax];
+            let tasks: Vec<(String, usize)> = ORDERS.iter().flat_map(|o| sizes.iter().map(move |&n| (o.to_string(), n))).collect();
+            let q = WorkQueue::new(tasks.len() as u64);
+            let tasks = &tasks;
+            let rep = common::run_sharded(a.threads(), |_s, rep| {
+                rep.sample_cap = 64;
+                while let Some(i) = q.take() {
+                    // largest first
+                    let (o, n) = &tasks[tasks.len() - 1 - i as usize];
+                    run_adversarial(o, *n, mix(&[seed, common::hash_str(o), *n as u64]), rep);
+                }
+            });
+            report.merge(rep);
+            report.extra("exhaustive", false);
+            report.extra("orders", Json::from(ORDERS.iter().map(|s| s.to_string()).collect::<Vec<_>>()));
+            report.extra("sizes", Json::from(sizes));
+        }
+        m => panic!("unknown mode {}", m),
+    }
+    eng.finish(report);
+}
